@@ -112,7 +112,7 @@ def plan(tier, seed, k):
     # dest: the destination group in full (domain condition, expectation, prefix condition, resolver choice) against every
     # target and resolver behaviour
     add("dest", 16 if big else 3, RouteSpace="DestLattice", Behs=behs(BEH_ALL), Asks="Vary(Q1) \\cup Vary(Q2)" if big else "Vary(Q1) \\cup {Q2}",
-        DomVars=S(ALL_DOM if big else ["l", "s1", "mid"]), PfxVars=S(ALL_PFX if big else ["p", "s"]),
+        DomVars=S(["l", "L", "s1", "mid", "big", "mix"] if big else ["l", "s1", "mid"]), PfxVars=S(ALL_PFX if big else ["p", "s"]),
         ExpVars=S(["p", "s"]), Ports=S(PORTS_SMALL), INVARIANTS=heavy if big else light)
     # order: every list of 0..n routes over a handful of templates (true / false / undecidable / rejecting by
     # different mechanisms), every default
@@ -121,7 +121,7 @@ def plan(tier, seed, k):
     order_asks = ('{[Q1 EXCEPT !.net = n, !.usr = u, !.sip = s, !.tport = p, !.tk = t.tk, !.ta = t.ta, !.b = t.b] : '
                   'n \\in Nets, u \\in {"alice", "mallory"}, s \\in %s, p \\in {0, 443}, t \\in Tgts}')
     add("order", 16 if big else 3, RouteSpace="Templates", MaxRoutes=4 if big else 3,
-        DefaultSpace="{%s, %s}" % (D_C0, D_REJ) if big else "{%s}" % D_REJ,
+        DefaultSpace="{%s}" % D_REJ,
         Asks=order_asks % "{A4}",
         INVARIANTS=light + (" ImplRefinesDecl" if big else ""), PROPERTIES="GetIsPure AppendLaw" if big else "GetIsPure", **tgts)
     # design (quick only; thorough checks the invariants in every run): all invariants and action properties of the
@@ -130,7 +130,7 @@ def plan(tier, seed, k):
         add("design", 3, RouteSpace="Templates", MaxRoutes=2, DefaultSpace="{%s, %s}" % (D_C0, D_UNSET),
             Asks=order_asks % "{A4}", INVARIANTS=heavy, PROPERTIES="GetIsPure AppendLaw", **tgts)
     # random: seeded route lists of 0..6 routes, every field independent
-    n = 1200 if big else 160
+    n = 900 if big else 160
     add("random", 16 if big else 3, RouteSpace="GivenAt", StartGuard="routes \\in Given", MaxRoutes=6,
         Given=random_lists(rnd, n, 6, ALL_PORTS, ALL_PFX, ALL_DOM),
         Asks="Vary2(Q1) \\cup Vary2(Q2)" if big else "Vary2(Q1) \\cup Vary(Q2)", Usrs=S(["alice", "mallory", ""]),
@@ -226,14 +226,15 @@ def run(tier, seed, replay):
     v.coverage["constants_from_code"] = {n: k[n] for n in ("MaxRangeSet", "MaxLinearDomains", "MaxLinearSuffixes")}
     runs = plan(tier, seed, k)
     big = tier == "thorough"
-    # TLC: quick runs all configurations side by side, thorough one after the other with all workers
+    # TLC: quick runs all configurations side by side, thorough one after the other with all workers.  The timeouts are
+    # far above the normal run times (seconds to a few minutes): on an oversubscribed machine slow beats BROKEN.
     results = {}
     if big:
         for name, (consts, workers) in runs.items():
-            results[name] = run_tlc(name, consts, workers, 1500)[1]
+            results[name] = run_tlc(name, consts, workers, 3000)[1]
     else:
         with ThreadPoolExecutor(max_workers=len(runs)) as ex:
-            for name, r in ex.map(lambda kv: run_tlc(kv[0], kv[1][0], kv[1][1], 600), runs.items()):
+            for name, r in ex.map(lambda kv: run_tlc(kv[0], kv[1][0], kv[1][1], 1800), runs.items()):
                 results[name] = r
     inputs, seen, tlc_cov = [], set(), {}
     evaluations = distinct = nontrivial = 0
@@ -266,7 +267,7 @@ def run(tier, seed, replay):
             inputs.append({"params": {"cat": cat, "cases": ch}, "seed": seed + i, "tier": tier})
     if not hist.get("order-dependent"):
         raise vlib.Broken("no case of the order-dependent class was generated (vacuous OrderAmb)")
-    outs = common.run_parallel(binary, "TestCases", inputs, 600)
+    outs = common.run_parallel(binary, "TestCases", inputs, 1800)
     calls = cases_run = classes = 0
     observed = collections.Counter()
     viol_count = collections.Counter()
@@ -299,6 +300,14 @@ def run(tier, seed, replay):
                 observed[kk] += n
             elif kk in ("order_amb_observed", "soft_differs", "refused_expected", "lookups", "drift"):
                 observed[kk] += n
+    # one note per kind of model drift is enough
+    kinds_seen, notes = set(), []
+    for n in v.notes:
+        kind = n.split("first: ")[-1][:60]
+        if kind not in kinds_seen:
+            kinds_seen.add(kind)
+            notes.append(n)
+    v.notes[:] = notes
     v.coverage.update(
         evaluations=calls, distinct_nontrivial=nontrivial,
         rule="TLC enumerates router configurations from lattices of catalogue variants (kinds: one criterion kind per route, "
